@@ -1,14 +1,15 @@
 ---------------------------- MODULE MC_CodecOps ----------------------------
 (* Exhaustive configurations of CodecOps.                                  *)
-(*  _enc : sessions of up to three messages through the bare encoders      *)
-(*         (COBS family at block limit 3 [5 in _t], command text, text     *)
-(*         framings with delimiters of 1..3 bytes whose prefixes and       *)
-(*         repetitions occur in the messages), every split into pushes,    *)
-(*         room schedule, Delete(1..3) at every point.                     *)
-(*  _arr : the array path: unlimited room, a reader consuming finished     *)
-(*         bytes (Shift), ShiftFront / Prepare, the raw path.              *)
-(*  _dec : the decoder design of CobsDec with SizeQuery and Reset at every *)
-(*         point; _size: longer streams of short blocks on one schedule.   *)
+(* One run explores the four parts (variable mode) side by side:           *)
+(*  enc : sessions of up to three messages through the bare encoders       *)
+(*        (COBS family at block limit 3 [5 in _t], command text, text      *)
+(*        framings with delimiters of 1..3 bytes whose prefixes and        *)
+(*        repetitions occur in the messages), every split into pushes,     *)
+(*        room schedule, Delete(1..3) at every point.                      *)
+(*  arr : the array path: unlimited room, a reader consuming finished      *)
+(*        bytes (Shift), ShiftFront / Prepare, the raw path.               *)
+(*  dec : the decoder design of CobsDec with SizeQuery and Reset at every  *)
+(*        point; size: longer frames of short blocks on one schedule.      *)
 EXTENDS CodecOps
 CONSTANT CapMax
 K3 == {SCobs(3), SCobsR(3), SZpe(3, 3), SZpeR(3, 3)}
@@ -22,6 +23,7 @@ KindsGQ == K3 \cup {KCmd, TText(<<6>>, "ctx"), TText(<<6, 6>>, "buf"), TText(<<6
 KindsAQ == K3 \cup {KCmd, KRaw}
 KindsAT == K3 \cup K5 \cup {KCmd, KRaw}
 KindsDQ == K3 \cup {KCmd}
+KindsDG == {SCobs(3), SZpeR(3, 3), KCmd}
 KindsDT == K3 \cup K5 \cup {KCmd}
 AlphaE == {0, 1, 6}
 AlphaD == {0, 1, 2, 3, 5}
@@ -30,6 +32,7 @@ AlphaG == {0, 1, 3}
 StreamsG == SeqsUpTo(AlphaG, 3)
 NextAll == SeqsUpTo(AlphaE, 2)
 NextFew == {<<>>, <<0>>, <<6, 1>>, <<1, 0>>, <<6, 6>>}
+NextMin == {<<>>, <<0>>, <<6, 1>>}
 OpsNoPeek == {"size", "reset"}
 CapsZ  == {0}
 CapsA  == {Big}
@@ -48,6 +51,7 @@ Fd13   == {1, 3}
 Q1236  == {1, 2, 3, 6}
 Q123   == {1, 2, 3}
 Q13    == {1, 3}
+Q2     == {2}
 Sl2    == {2}
 Mis01  == {0, 1}
 Mis0   == {0}
@@ -56,10 +60,16 @@ Streams4 == SeqsUpTo(AlphaD, 4)
 \* frames of short blocks: every string of length 5..7 over {1,2} followed by the delimiter
 StreamsS == {s \o <<0>> : s \in UNION {[1..k -> {1, 2}] : k \in 5..7}}
 NoStreams == {<<>>}
+\* two frames of short blocks for the behaviour export of the part "size"
+StreamsP == {<<2, 1, 2, 1, 2, 1, 0>>, <<2, 1, 2, 1, 2, 1, 2, 1, 0>>}
+Q68 == {6, 8}
 OpsAll == {"peek", "reset", "size"}
 OpsSize == {"size"}
 StreamsQ == {s \o <<0>> : s \in [1..6 -> {1, 2}]}
+AllModes == {"enc", "arr", "dec", "size"}
+GenModes == {"enc", "arr", "dec"}
 BoundE == cap <= Sep(K) + CapMax
-BoundD == Len(reg) <= DMaxLen + 6
-View   == <<K, evars, dvars>>
+BoundD == Len(reg) <= Len(stream) + 6
+Bound  == IF mode = "enc" THEN BoundE ELSE IF mode = "arr" THEN TRUE ELSE BoundD
+View   == <<mode, K, evars, dvars>>
 =============================================================================
